@@ -589,7 +589,7 @@ def c10h(ctx):
               fail='the merger (and its clip mask) is given a size/bbox that does not belong to the rendered (extent-limited) query: the '
                    'authorization mask is shifted against the image')
     srs = keyword(mg[0], 'bbox_srs') if mg else None
-    ok = srs is not None and unparse(srs) in ('params.srs', 'query.srs', 'query.srs.srs_code')
+    ok = srs is not None and any(same(srs, t) for t in ('map_request.params.srs', 'query.srs', 'query.srs.srs_code'))
     ctx.check(ok, 'WMSServer.map:mask-srs', 'the mask SRS is the request/query SRS', fn)
 
 
